@@ -851,9 +851,9 @@ class Engine:
                           folded=0, replayed=0, max_depth=0, infeasible_paths=0)
 
     # ---- solver wrappers
-    def _check(self, *assumptions, kind='feas'):
+    def _check(self, *assumptions, kind='feas', guided=None):
         t0 = time.time()
-        if kind == 'feas' and self.short_timeout_ms < self.timeout_ms:
+        if (kind == 'feas' or guided) and self.short_timeout_ms < self.timeout_ms:
             self.solver.set('timeout', self.short_timeout_ms)
             try:
                 r = self.solver.check(*assumptions)
@@ -1251,7 +1251,7 @@ class Engine:
             phi = z3.BoolVal(True)
         if phi is False:
             return None
-        if self._check(phi, kind='prop'):
+        if self._check(phi, kind='prop', guided=True):
             return self.last_model
         return None
 
